@@ -619,5 +619,8 @@ class ConcCtx(BaseCtx):
     def check_in(self, label, x, lo, hi, detail=None):
         if not self.is_finite_number(x):
             return self.check(label, False, "%s: not a finite number: %r" % (detail, x))
-        t = _tol(lo, hi)
+        # containment is exact in floating point for midpoints, linspace boundaries and clamped uniform draws (lemmas L-mid,
+        # L-kary; the RNG contract): the float oracle allows two ulps of the coordinate, not the 1e-9 of real-valued equalities
+        # (seed S-C01-7: an absolute 1e-12 margin pushed cells out of the box)
+        t = 4.5e-16 * abs(float(x))
         return self.check(label, lo - t <= x <= hi + t, detail)
